@@ -329,10 +329,67 @@ Fixpoint float_ok_from (c : ctrl) (ops : list op) : bool :=
       && float_ok_from c' t
   end.
 
+(** ---- clause 11 (monitor only, on the implementation's trace): the loss average is a TIME-DECAYED
+    average.  The average itself is an oracle input of the model (its weight 1 - exp(-dt/tau) has no
+    counterpart in Coq's primitive floats), so the latch clauses above judge the latch against the
+    average the code reports.  What can be judged without exp: after the link's first update, one
+    update moves the average towards the window's loss fraction by at most dt/tau of the gap
+    (1 - exp(-x) <= x); in particular it never jumps to the instantaneous value.  The monitor keeps
+    its own record of the previous update (a tick that leaves the link outside Bootstrap updates the
+    average; a link absent from a tick is forgotten, as the controller forgets it). *)
+Definition f_abs (x : float) : float := PrimFloat.abs x.
+Definition lpm_frac (lpm : Z) : float :=
+  let x := (LinkCcF.z2f (Z.max 0 (Z.min lpm 1000000)) / 1000)%float in
+  if f_lt 1 x then 1%float else x.
+
+Definition ewma_step_ok (t0 : Z) (old : float) (now : Z) (o : lobs) : bool :=
+  let dt := now - t0 in
+  if dt <? 0 then true
+  else if 2000 <=? dt then true     (* dt >= tau: no constraint *)
+  else
+    let inst := lpm_frac (o_lpm o) in
+    let gap := f_abs (inst - old)%float in
+    let bound := ((gap * (LinkCcF.z2f dt / FConstants.LOSS_EWMA_TAU_MS)) * 0x1.000010c6f7a0bp+0 + 0x1.12e0be826d695p-30)%float in
+    f_le (f_abs (o_lewma o - old)%float) bound.
+
+Definition emap := list (Z * (Z * float)).
+Fixpoint eget (m : emap) (k : Z) : option (Z * float) :=
+  match m with [] => None | (k', v) :: t => if k' =? k then Some v else eget t k end.
+
+Fixpoint ewma_links (prev : emap) (now : Z) (cis : list cinp) (os : list lobs) : bool * emap :=
+  match cis, os with
+  | ci :: cis', o :: os' =>
+    let '(ok, m) := ewma_links prev now cis' os' in
+    let id := ci_id ci in
+    if o_st o =? 0 then
+      (* no update at this tick: the record is carried over *)
+      (ok, match eget prev id with Some v => (id, v) :: m | None => m end)
+    else
+      (* an update stamped 0 ms is indistinguishable from "no update yet" for the code (time 0 is the
+         controller's "never" value); the next update may snap again *)
+      let ok1 := match eget prev id with
+                 | Some (t0, old) => if t0 =? 0 then true else ewma_step_ok t0 old now o
+                 | None => true end in
+      (ok && ok1, (id, (now, o_lewma o)) :: m)
+  | _, _ => (true, [])
+  end.
+
+Fixpoint ewma_run (prev : emap) (cops : list cop) (impl : list tobs) : bool :=
+  match cops, impl with
+  | T now cis :: t, o :: impl' =>
+    let '(ok, m) := ewma_links prev now cis (t_links o) in
+    ok && ewma_run m t impl'
+  | _, _ => true
+  end.
+
+Definition cl_ewma_step : N := 11.
+Definition ewma_verdict (c : case) : N := if ewma_run [] (c_ops c) (c_impl c) then 0%N else cl_ewma_step.
+
 Definition check_case (c : case) : N :=
   let ops := ops_of (c_ops c) (c_impl c) in
   let d := trace_diff (run ops) (c_impl c) 1 in
-  let v := mon_verdict (combine ops (c_impl c)) in
+  let v0 := mon_verdict (combine ops (c_impl c)) in
+  let v := if (v0 =? 0)%N then ewma_verdict c else v0 in
   let shape_bad := negb (length (c_ops c) =? length (c_impl c))%nat in
   if negb (v =? 0)%N then ((if (d =? 0)%Z then 0 else 1) + 2 + 4 * v)%N
   else if shape_bad then (1 + 4 * 63)%N
